@@ -6,6 +6,7 @@ pub mod c04;
 pub mod rxgen;
 pub mod c05;
 pub mod txgen;
+pub mod c06;
 pub mod c07;
 pub mod c09;
 pub mod c09b;
@@ -17,7 +18,7 @@ pub mod c16;
 use crate::engine::{Ctx, Tier};
 use serde_json::Value;
 
-pub const ALL: &[&str] = &["C01", "C04", "C05", "C07", "C09", "C11", "C15", "C16"];
+pub const ALL: &[&str] = &["C01", "C04", "C05", "C06", "C07", "C09", "C11", "C15", "C16"];
 
 pub fn run(id: &str, tier: Tier, seed: u64) -> Option<i32> {
     macro_rules! go {
@@ -31,6 +32,7 @@ pub fn run(id: &str, tier: Tier, seed: u64) -> Option<i32> {
         "C01" => go!(c01, "C01"),
         "C04" => go!(c04, "C04"),
         "C05" => go!(c05, "C05"),
+        "C06" => go!(c06, "C06"),
         "C07" => go!(c07, "C07"),
         "C09" => go!(c09, "C09"),
         "C11" => go!(c11, "C11"),
@@ -45,6 +47,7 @@ pub fn replay(id: &str, v: &Value) -> Option<i32> {
         "C01" => c01::replay(v),
         "C04" => c04::replay(v),
         "C05" => c05::replay(v),
+        "C06" => c06::replay(v),
         "C07" => c07::replay(v),
         "C09" => c09::replay(v),
         "C11" => c11::replay(v),
